@@ -450,6 +450,15 @@ struct Exec {
     out().line("{\"e\":\"observe\",\"o\":" + std::to_string(o) + "," + obs3(o) + "}");
   }
 
+  // to_string(): the diagnostic JSON dump of both C++ representations
+  void tostring_slot(int o) {
+    if (!s[o].a) return;
+    out().pending = "tostr";
+    std::string ta = s[o].a->to_string();
+    std::string tu = s[o].u ? s[o].u->to_string() : std::string("null");
+    out().line("{\"e\":\"tostr\",\"o\":" + std::to_string(o) + ",\"a\":" + jbytes(ta) + ",\"u\":" + jbytes(tu) + "}");
+  }
+
   // parse(get_href()) of each representation with no base; logged as the observation
   // of the fresh objects (C05)
   void reparse(int o) {
